@@ -247,6 +247,10 @@ class LabelsInSessions(Stage):
         items.append(['cmd', 'connection all'])
         for _ in range(d.int(2, 6)):
             items.append(['cmd', 'list ' + (d.choice(used) if used and d.chance(0.5) else d.choice(labels)), 'check'])
+        if d.chance(0.6):
+            # the label as the (only) filter: a plain `list` then shows what the label selects, whatever the breakpoint matcher is
+            lab = d.choice(labels)
+            items += [['cmd', 'filter !'], ['cmd', 'filter ' + lab], ['cmd', 'list', 'check-filter', lab]]
         return dict(specs=specs, items=items)
 
     def execute(self, case):
@@ -270,9 +274,9 @@ class LabelsInSessions(Stage):
                 a = seg.text.split(' ', 1)[1]
                 sel = None if a == 'all' else a
                 continue
-            if len(it) < 3 or it[2] != 'check':
+            if len(it) < 3 or it[2] not in ('check', 'check-filter'):
                 continue
-            form = seg.text.split(' ', 1)[1]
+            form = seg.text.split(' ', 1)[1] if it[2] == 'check' else it[3]
             cname, _, rest = form.partition(':')
             rest = rest.strip()
             mc = next(c for c in W.conns.values() if c.name == cname)
@@ -368,6 +372,11 @@ class SinkNames(Stage):
                 c = d.choice(sorted(is_open))
                 is_open.discard(c)
                 ops.append(['close', c])
+                if d.chance(0.4):
+                    # the id is used again at once and the next message is on it (an address libwayland hands out again)
+                    is_open.add(c)
+                    ops.append(['open', c, d.choice([None, True, False])])
+                    ops.append(['message', c, d.int(2, 5)])
             else:
                 c = d.choice(ids)
                 is_open.add(c)
@@ -381,7 +390,7 @@ class SinkNames(Stage):
         res.evals = 0
         ex = SinkExec()
         for op in case['ops']:
-            ex.apply(op, Result())       # C04 judges the table; here only names and labels
+            ex.apply(op, res)            # which connection a message lands on decides what its label selects: the sink model's verdicts count here too
         conns = list(ex.cm.connections())
         names = [c.name() for c in conns]
         if len(set(names)) != len(names):
